@@ -130,8 +130,35 @@ AVOID6 = {
  "C20": "free(fullpath) dropped in parse_symlink; early return skipping free(tmp_filename) in extract_file",
 }
 R6 = ("Prefer these kinds of slip: a single wrong entry, bound or case in a constant table or switch statement (code and position tables of the decoders, extended-header type dispatch, OS-type, month, permission and method strings, option letters); a changed order of two operations that usually commute (chmod/chown/utime, free/assign, flush/close, push/pop); a signedness or width change of one variable; an operator-precedence, <= vs <, && vs ||, or + vs - slip inside a rarely taken branch; and the less-used entry points and modes (the three directory policies of lha_reader_set_dir_policy, lha_reader_current_is_fake, lha_file_header_full_path, lha_decoder_monitor, src/filter.c, the 'e' spelling of extract, quiet levels, header levels 0 and 3, the -lhx-/-lk7-/-lzs-/-pm1- methods). ")
+AVOID7 = {
+ "C01": "short block count in start_new_block; set_tree_single on the wrong tree in read_temp_table",
+ "C02": "group_leader array sized NUM_CODES; static refill buffer in the bit reader",
+ "C03": "if instead of while in peek_bits; char instead of int for an lzs literal",
+ "C04": "history_decode[6] and copy_decode[4] table entries",
+ "C05": "symlink detection requiring a file name; 16-bit ext_header_len in decode_extended_headers",
+ "C06": "MacBinary check_modification_time subtraction; fchmod before fchown",
+ "C07": "lha_decoder_get_length returning stream_length; ferror before fclose in extract_file",
+ "C08": "pm1 MAX_COPY_BLOCK_LEN 224; skip_sfx loop bound with size_t wrap",
+ "C09": "pm2 code_lengths[29]; sizeof(offset_tree) passed to build_tree",
+ "C10": "leading separators (collapse_path while / file_full_path if); utime on a freshly created symlink",
+ "C11": "parentheses in the empty-or-dot test of collapse_path; '/' rewrite skipped for OS type m",
+ "C12": "level-1 minimum length taken from level 0; 7-bit checksum comparison",
+ "C13": "(int) cast of the fseek offset; read_length_value loop without end-of-input exit",
+ "C14": "fast path skipping check_progress_callback; clamp comparison wrapping at zero-length first read",
+ "C15": "range check in lha_reader_set_dir_policy; bare directory entries never pushed",
+ "C16": "lead-in drain test > 1; level-1 skip-size guard against a stale copy",
+ "C17": "*crc read and written per byte (aliasing); stale tmp after 32767-byte runs",
+ "C18": "safe_output passing text as the format; print_symlink_line target through plain printf",
+ "C19": "signed timestamp in output_full_timestamp; footer dropped at quiet level 1",
+ "C20": "deferred list head lost after the first pop; free before malloc in the file-name decoder",
+}
+R7 = ("Prefer defects that show only (a) when a call sequence goes on after an error or an unusual return value (a failed check or read followed by moving to the next member, a partial read followed by a skip, requests after the end of the archive, an extraction after a failed one, a reader whose stream reported an error once); (b) as an inconsistency between two views of the same archive (list vs test vs extract vs print; header fields vs what the tool prints or creates; the same member stored under different header levels or methods); (c) for particular combinations of members in one archive (a directory and a same-named file in either order, the same path twice, chains of links, members with empty names, a directory listed after its contents); (d) in arithmetic on sizes, ratios, percentages, time zones and daylight saving; (e) exactly at powers of two or at the maximum value of a length, count or offset field. ")
 extra = ""
-if len(sys.argv) > 3 and sys.argv[3] == "r6":
+if len(sys.argv) > 3 and sys.argv[3] == "r7":
+    extra = ("\n\nIMPORTANT: changes at the following sites/mechanisms have already been collected for this property; produce changes that hit DIFFERENT functions and mechanisms: "
+             + "; ".join(x for x in (AVOID.get(pid, ""), AVOID3.get(pid, ""), AVOID4.get(pid, ""), AVOID5.get(pid, ""), AVOID6.get(pid, ""), AVOID7.get(pid, "")) if x) + ". " + R7
+             + "Name your output directories " + pid + "-13 and " + pid + "-14.")
+elif len(sys.argv) > 3 and sys.argv[3] == "r6":
     extra = ("\n\nIMPORTANT: changes at the following sites/mechanisms have already been collected for this property; produce changes that hit DIFFERENT functions and mechanisms: "
              + "; ".join(x for x in (AVOID.get(pid, ""), AVOID3.get(pid, ""), AVOID4.get(pid, ""), AVOID5.get(pid, ""), AVOID6.get(pid, "")) if x) + ". " + R6
              + "Name your output directories " + pid + "-11 and " + pid + "-12.")
